@@ -269,6 +269,13 @@ def run(ctx: Ctx) -> None:
     run_shared(ctx, c09.run, {"R9.4": ("R1.10", "the #include operand is what is written after the directive name, whatever blanks the lexer rule admits")},
                {"R9.4|lexer:PlyLexer.t_INCLUDE_DIRECTIVE|trailing comment"})
 
+    # ---------------------------------------------------------------- R1.11
+    # "with the same names": a word that is an identifier in C++ stays a NAME.  Every member of the lexer's keyword set gets
+    # a token type of its own, and a keyword the parser never asks for cannot be declared, passed or aliased any more
+    # (`int module;`).  C02's keyword partition R2.5, evaluated here under this property's id.
+    from . import c02 as _c02
+    run_shared(ctx, _c02.run, {"R2.5": ("R1.11", "every keyword of the lexer is one the parser knows (or a reasoned expression / unsupported-specifier keyword): an identifier is not turned into a token no declaration form accepts")})
+
     # ---------------------------------------------------------------- R1.9
     ctx.rule("R1.9", "parsed information is not dropped: no value-bearing local dies unread, every parameter of a parsing method is used", minimum=150)
     from ..cfg import node_defs
